@@ -9,7 +9,9 @@
 
   `W` = width in bits of the value and of the version (16 for thread ids, 32 for deposit-box
   slots).  The model keeps the *untruncated* push count as a ghost (`headG`); what the code stores
-  and compares is `headG % 2^W`.  `owner` is ghost ownership used to state uniqueness.
+  and compares is `headG % 2^W`.  `owner` is ghost ownership used to state uniqueness; `fl` is the
+  ghost free list (the ids a successful push put on the stack and no successful pop removed yet).
+  Ghost fields never influence a label or a non-ghost field.
   Core Lean only.
 -/
 import Babylon.Gen.IdAlloc
@@ -52,6 +54,7 @@ structure State where
   result : Nat → Option (Nat × Nat)   -- last value returned by `allocate` to a thread (value, version)
   bound : Nat → Nat             -- last `next_value` bound read by `end()` / `for_each` of a thread
   dup : Bool                    -- ghost: some allocation handed out an id that already had an owner
+  fl : List Nat := []           -- ghost: the free stack as a list (head first)
 
 def State.init (c : Cfg) : State :=
   { headV := c.tail, headG := 0, next := fun _ => 0, nv := 0, pc := fun _ => .idle,
@@ -81,7 +84,7 @@ def stepThread (c : Cfg) (s : State) (t : Nat) (spurious : Bool) : Option (State
     if hit ∧ ¬ spurious then
       -- pop: value := next, version kept; the id now belongs to `t`
       some ({ s with headV := nv, owner := upd s.owner cv (some t), dup := s.dup || (s.owner cv).isSome,
-                     pc := upd s.pc t (.a3 cv cg) },
+                     pc := upd s.pc t (.a3 cv cg), fl := s.fl.tail },
             .cas "head" 0 true .acqrel .acq (c.pack cv cg) (c.pack nv (cg + popVersionBump)) true (c.pack s.headV s.headG))
     else
       some ({ s with pc := upd s.pc t (allocLoop c s.headV s.headG) },
@@ -107,7 +110,7 @@ def stepThread (c : Cfg) (s : State) (t : Nat) (spurious : Bool) : Option (State
   | .d2 id cv cg =>
     let hit := s.headV = cv ∧ s.headG % 2 ^ c.W = cg % 2 ^ c.W
     if hit ∧ ¬ spurious then
-      some ({ s with headV := id, headG := s.headG + pushVersionBump, pc := upd s.pc t .idle },
+      some ({ s with headV := id, headG := s.headG + pushVersionBump, pc := upd s.pc t .idle, fl := id :: s.fl },
             .cas "head" 0 true .rel .acq (c.pack cv cg) (c.pack id (cg + pushVersionBump)) true (c.pack s.headV s.headG))
     else
       some ({ s with pc := upd s.pc t (.d1 id s.headV s.headG) },
@@ -125,6 +128,14 @@ def forEachIds (c : Cfg) (s : State) (n : Nat) : List Nat :=
   (List.range n).filter (fun i => s.next i = c.active)
 
 def callEnd (s : State) (t : Nat) : State := { s with pc := upd s.pc t .e0 }
+/-- ghost hand-off: thread `t` passes an id it holds (its `allocate` has returned) to thread `u`,
+who may then deallocate it (a deposit-box taker releases the slot the emplacer allocated) -/
+def giveId (s : State) (id u : Nat) : State := { s with owner := upd s.owner id (some u) }
+/-- the id whose `allocate` by this thread has obtained it but not yet returned it -/
+def Pc.fresh : Pc → Option Nat
+  | .a3 cv _ => some cv
+  | .an2 v => some v
+  | _ => none
 def callForEach (s : State) (t : Nat) : State := { s with pc := upd s.pc t .fe0 }
 
 /-- The transition relation: any thread performs its next atomic action, or an idle thread starts
@@ -136,6 +147,7 @@ inductive Step (c : Cfg) : State → State → Prop
   | dealloc (s : State) (t id : Nat) : s.pc t = .idle → s.owner id = some t → Step c s (callDealloc s t id)
   | endc (s : State) (t : Nat) : s.pc t = .idle → Step c s (callEnd s t)
   | foreach (s : State) (t : Nat) : s.pc t = .idle → Step c s (callForEach s t)
+  | give (s : State) (t u id : Nat) : s.owner id = some t → (s.pc t).fresh ≠ some id → Step c s (giveId s id u)
 
 /-- skeleton this model was written against (compared with the generated one in Properties/C14) -/
 def Skel.allocate : List Site := [
